@@ -235,7 +235,49 @@ package tglib
 //@ requires nolist: pduSessionIDList == nil
 //@ call Encoder hands (pdu ngapType.NGAPPDU, amfUeNgapID int64, ranUeNgapID int64): vcHandsUECtxRelCpl(pdu, amfUeNgapID, ranUeNgapID)
 //@ ghostlog ngap.built: trace.Rec(trace.UEContextReleaseComplete, amfUeNgapID, ranUeNgapID, 0)
+// C10, "locate the NAS-PDU IE": the octets handed to NASDecode are those of the first IE of the
+// list whose id is NAS-PDU (38, TS 38.413 9.3.1.1 — constant from spec/ngap38413), the security
+// header type is octet 2 of those octets, and the result is NASDecode's (nil when it fails).  The
+// driver-level checks use the case `any` (nothing is promised about the message); the cases
+// ies3/ies4/ies6 are lists of 3, 4 and 6 IEs with the NAS-PDU anywhere (or nowhere).
 //@ func GetNasPdu
+//@ prop C10
+//@ behavior ies3
+//@ shape msg.ProtocolIEs.List 3
+//@ requires msg: msg != nil
+//@ requires algs: (ue.IntegrityAlg == 1 || ue.IntegrityAlg == 2) && ue.CipheringAlg <= 2
+//@ requires wellformed: vcNasIEsWellFormed(msg)
+//@ assigns global free5gclib/nas/security/snow3g.lfsr free5gclib/nas/security/snow3g.fsm
+//@ assigns ue
+//@ loop rangeindex unroll 4
+//@ call NASDecode located (payload []byte, securityHeaderType uint8, msg *ngapType.DownlinkNASTransport): vcLocated(msg, payload) && len(payload) >= 2 && securityHeaderType == payload[1]
+//@ ensures none: vc.Imp(vcNoNasBefore(msg, len(msg.ProtocolIEs.List)), m == nil)
+//@ func GetNasPdu
+//@ prop C10
+//@ behavior ies4
+//@ shape msg.ProtocolIEs.List 4
+//@ requires msg: msg != nil
+//@ requires algs: (ue.IntegrityAlg == 1 || ue.IntegrityAlg == 2) && ue.CipheringAlg <= 2
+//@ requires wellformed: vcNasIEsWellFormed(msg)
+//@ assigns global free5gclib/nas/security/snow3g.lfsr free5gclib/nas/security/snow3g.fsm
+//@ assigns ue
+//@ loop rangeindex unroll 5
+//@ call NASDecode located (payload []byte, securityHeaderType uint8, msg *ngapType.DownlinkNASTransport): vcLocated(msg, payload) && len(payload) >= 2 && securityHeaderType == payload[1]
+//@ ensures none: vc.Imp(vcNoNasBefore(msg, len(msg.ProtocolIEs.List)), m == nil)
+//@ func GetNasPdu
+//@ prop C10
+//@ behavior ies6
+//@ shape msg.ProtocolIEs.List 6
+//@ requires msg: msg != nil
+//@ requires algs: (ue.IntegrityAlg == 1 || ue.IntegrityAlg == 2) && ue.CipheringAlg <= 2
+//@ requires wellformed: vcNasIEsWellFormed(msg)
+//@ assigns global free5gclib/nas/security/snow3g.lfsr free5gclib/nas/security/snow3g.fsm
+//@ assigns ue
+//@ loop rangeindex unroll 7
+//@ call NASDecode located (payload []byte, securityHeaderType uint8, msg *ngapType.DownlinkNASTransport): vcLocated(msg, payload) && len(payload) >= 2 && securityHeaderType == payload[1]
+//@ ensures none: vc.Imp(vcNoNasBefore(msg, len(msg.ProtocolIEs.List)), m == nil)
+//@ func GetNasPdu
+//@ behavior any
 //@ trusted
 // Proved from NASEncode's contract (the plain NAS codec stays assumed): the uplink COUNT used is 0
 // for a new security context and the stored one otherwise, it is the sequence number octet, and
